@@ -15,12 +15,17 @@ type entry struct {
 }
 
 var registry = map[string]entry{
+	"C03": {"exploration", props.C03},
 	"C12": {"exploration", props.C12},
 	"C19": {"fault_enumeration", props.C19},
 	"C20": {"exploration", props.C20},
 }
 
 func main() {
+	if len(os.Args) == 4 && os.Args[1] == "--c03-child" {
+		props.C03Child(os.Args[2], os.Args[3])
+		return
+	}
 	if len(os.Args) < 3 {
 		fmt.Println("usage: vf CNN quick|thorough")
 		os.Exit(2)
